@@ -466,35 +466,59 @@ def build_driver():
 # ------------------------------------------------------------------------------------------------
 # statement-level operand positions outside the operator tables: judged directly by the property
 # ------------------------------------------------------------------------------------------------
-def extra_cells():
+def list_decl_name(v):
+    """declared list type of `n Mal v` (count_decl of TcTable.v)"""
+    n = norm_key(v)
+    return CLS["L" + n][1] if not n.startswith("L") else "Zahlen Liste"
+
+
+def loop_type(k):
+    """pronoun + type name of a counter / loop variable of class k"""
+    _, name, art, _, _ = CLS[k]
+    return ("jede " if art == "Die" else "jeden ") + ("Buchstaben" if k == "C" else name)
+
+
+BODY = "\tSpeichere 1 in tZ.\n"
+
+
+def stmt_cells(full_forstep=True, rng=None):
+    """[(key, kind, class keys, text with %d for unique names)] — the statement cells of TcTable.v / LowerTable.v:
+    every kind x every tuple of the 19 classes (quick tier: FORSTEP tuples with fewer than three numeric classes are sampled)"""
     out = []
     for a in KEYS:
-        out.append(("stmt=REPEAT types=%s" % a, "Wiederhole:\n\tSpeichere 1 in tZ.\n(v%s) Mal.\n" % a))
-        out.append(("stmt=WHILE types=%s" % a, "Solange (v%s), mache:\n\tVerlasse die Schleife.\n" % a))
+        out.append(("REPEAT", (a,), "Wiederhole:\n" + BODY + "(v%s) Mal.\n" % a))
+        out.append(("WHILE", (a,), "Solange (v%s), mache:\n\tVerlasse die Schleife.\n" % a))
+        out.append(("IF", (a,), "Wenn (v%s), dann:\n" % a + BODY))
         for b in KEYS:
-            out.append(("stmt=LISTCOUNT types=%s,%s" % (a, b), "Die Variable x%%d ist (v%s) Mal (v%s).\n" % (a, b)))
-            out.append(("stmt=LISTLIT types=%s,%s" % (a, b), "Die Variable x%%d ist eine Liste, die aus (v%s), (v%s) besteht.\n" % (a, b)))
+            out.append(("LISTCOUNT", (a, b), "Die %s x%%d ist (v%s) Mal (v%s).\n" % (list_decl_name(b), a, b)))
+            out.append(("LISTLIT", (a, b), "Die Variable x%%d ist eine Liste, die aus (v%s), (v%s) besteht.\n" % (a, b)))
+            out.append(("FORRANGE", (a, b), "Für %s e%%d in (v%s), mache:\n" % (loop_type(a), b) + BODY))
+            for c in KEYS:
+                out.append(("INDEXASSIGN", (a, b, c), "Speichere (v%s) in t%s an der Stelle (v%s).\n" % (c, a, b)))
+                out.append(("FOR", (a, b, c), "Für %s i%%d von (v%s) bis (v%s), mache:\n" % (loop_type(a), b, c) + BODY))
+    num = ("Z", "K", "B", "A")
+    for a in KEYS:
+        for b in KEYS:
+            for c in KEYS:
+                for d in KEYS:
+                    if not full_forstep:
+                        nn = sum(1 for k in (a, b, c, d) if k in num)
+                        if nn < 3 and rng.random() >= (0.2 if nn == 2 else 0.02):
+                            continue
+                    out.append(("FORSTEP", (a, b, c, d),
+                                "Für %s i%%d von (v%s) bis (v%s) mit Schrittgröße (v%s), mache:\n" % (loop_type(a), b, c, d) + BODY))
+    return [("stmt=%s types=%s" % (kind, ",".join(tys)), kind, tys, (t % ((i,) * t.count("%d"))) if "%d" in t else t)
+            for i, (kind, tys, t) in enumerate(out)]
+
+
+def direct_cells():
+    """statement sequences outside the tables, judged directly by the property"""
+    out = []
     # `falls` with a literal first operand after a statement that leaves a temporary behind (c.latestIsTemp is not reset by literals)
-    for k, lit in (("Z", "2"), ("K", "2,0"), ("W", "falsch"), ("C", "'a'"), ("T", '"a"')):
+    for i, (k, lit) in enumerate((("Z", "2"), ("K", "2,0"), ("W", "falsch"), ("C", "'a'"), ("T", '"a"'))):
         out.append(("stmt=FALLS_AFTER_TEMP types=%s" % k,
-                    "Die Variable y%%d ist (vT) verkettet mit (vT).\nDie Variable x%%d ist %s, falls wahr, ansonsten (v%s).\n" % (lit, k)))
-    for cont in ("T", "LZ", "LK", "LB", "LW", "LC", "LT", "LS", "LV", "LD"):
-        for idx in ("Z", "B", "A", "K"):
-            for val in KEYS:
-                out.append(("stmt=INDEXASSIGN types=%s,%s,%s" % (cont, idx, val), "Speichere (v%s) in t%s an der Stelle (v%s).\n" % (val, cont, idx)))
-    num = ("Z", "K", "B", "A", "W")
-    for cnt, art in (("Zahl", "jede"), ("Kommazahl", "jede"), ("Byte", "jeden"), ("Ganzzahl", "jede")):
-        for a in num:
-            for b in num:
-                out.append(("stmt=FOR types=%s,%s,%s" % (cnt, a, b), "Für %s %s i%%d von (v%s) bis (v%s), mache:\n\tSpeichere 1 in tZ.\n" % (art, cnt, a, b)))
-                for c in num:
-                    out.append(("stmt=FORSTEP types=%s,%s,%s,%s" % (cnt, a, b, c),
-                                "Für %s %s i%%d von (v%s) bis (v%s) mit Schrittgröße (v%s), mache:\n\tSpeichere 1 in tZ.\n" % (art, cnt, a, b, c)))
-    for el, art in (("Zahl", "jede"), ("Kommazahl", "jede"), ("Byte", "jeden"), ("Wahrheitswert", "jeden"), ("Buchstaben", "jeden"), ("Text", "jeden"),
-                    ("Punkt", "jeden"), ("Variable", "jede"), ("Ganzzahl", "jede"), ("Nummer", "jede")):
-        for a in KEYS:
-            out.append(("stmt=FORRANGE types=%s,%s" % (el, a), "Für %s %s e%%d in (v%s), mache:\n\tSpeichere 1 in tZ.\n" % (art, el, a)))
-    return [(k, (s % ((i,) * s.count("%d"))) if "%d" in s else s) for i, (k, s) in enumerate(out)]
+                    "Die Variable yd%d ist (vT) verkettet mit (vT).\nDie Variable xd%d ist %s, falls wahr, ansonsten (v%s).\n" % (i, i, lit, k)))
+    return out
 
 
 # ------------------------------------------------------------------------------------------------
@@ -550,6 +574,7 @@ def main():
         "operands of a cell are variables of the class (registers); constants, temporaries and overloaded operators are outside the tables",
         "one representative per class: one Kombination (three fields), one alias and one definition of Zahl; the checker inspects operand types only through Equal/IsNumeric/IsList/IsPrimitive/IsAny/CastTypeDef",
         "harness cellx: parser.Parse of /repo in-process, admission per statement by diagnostic line, checker type = VarDecl.InitType",
+        "statement cells: tc_stmt / lower_stmt transcribe typechecker.go VisitWhileStmt/VisitIfStmt/VisitListLit/VisitIndexing+VisitAssignStmt/VisitForStmt/VisitForRangeStmt and the corresponding compiler.go visitors; loop bodies are a fixed assignment",
     ]
     if ck.replay:
         # re-run one recorded failing program against the current tree
@@ -833,41 +858,67 @@ def main():
             continue
         n_viol += 1
         report("%s verdict=%s" % (lunits[u][4], v), v, out, lunits[u][3], dict(operands="literals where the key names one", context=lunits[u][2], group=lbe.groups.get(u)))
-    # ---- 4. statement-level operand positions (direct judgement) -----------------------------------
-    ex = extra_cells()
-    eres, problems = frontend_batch(cx, b, [(j, t) for j, (k, t) in enumerate(ex)])
+    # ---- 4. statement-level operand positions: tc_stmt / lower_stmt against frontend and kddp ---------------
+    sts = stmt_cells(full_forstep=not quick, rng=ck.rng)
+    sfr, problems = frontend_batch(cx, b, [(j, st[3]) for j, st in enumerate(sts)], size=1500)
     if problems:
         ck.broken_obligation("cellx could not process %d statement batches: %s" % (len(problems), str(problems[0][1])[:400]), "")
-    ck.count(len(ex))
-    eacc = [j for j in range(len(ex)) if eres.get(j, (False, None))[0]]
-    if quick:
-        eacc = [j for j in eacc if not ex[j][0].startswith("stmt=FORSTEP") or ck.rng.random() < 0.2]
-    known_pat = [re.compile(k["key"]) for k in ck.known]
-    esingle = [j for j in eacc if any(p.search(ex[j][0] + " verdict=" + v) for p in known_pat for v in ("internal-error", "llvm-reject", "link-fail"))]
-    egood = [j for j in eacc if j not in set(esingle)]
-    ck.rng.shuffle(egood)
-    ebad = {}
+    ck.count(len(sts))
+    spred = {}
+    if model_ok:
+        mout, lg = run_model(["S %s %s" % (st[1], " ".join(str(TY_INDEX[k]) for k in st[2])) for st in sts])
+        if mout is None:
+            ck.broken_obligation("model driver failed on the statement cells", lg)
+        else:
+            for j, l in enumerate(mout):
+                f = l.split()
+                spred[j] = (f[0] == "1", VERDICT[f[1]])
+    sacc = [j for j in range(len(sts)) if sfr.get(j, (False, None))[0]]
+    smis = [j for j in range(len(sts)) if j in spred and j in sfr and spred[j][0] != sfr[j][0]]
+    smis_set = set(smis)
+    ssingle = [j for j in sacc if j in smis_set or (j in spred and spred[j][1] != "ok")]
+    ssingle_set = set(ssingle)
+    sgood = [j for j in sacc if j not in ssingle_set and not (quick and sts[j][1] == "FORSTEP" and ck.rng.random() >= 0.25)]
+    ck.rng.shuffle(sgood)
     ebe = Backend(b, sc)
-    for r in vlib.pmap(lambda bt: ebe.isolate([(j, ex[j][1]) for j in bt]), [egood[k:k + BATCH] for k in range(0, len(egood), BATCH)]):
-        ebad.update(r)
-    for j, (v, out) in zip(esingle, vlib.pmap(lambda j: ebe.compile_items([(j, ex[j][1])]), esingle)):
-        if v != "ok":
-            ebad[j] = (v, out)
-    for j in eacc:
-        ck.nontrivial(ex[j][0])
-    for j, (v, out) in sorted(ebad.items()):
+    sreal = {j: ("ok", "") for j in sgood}
+    for r in vlib.pmap(lambda bt: ebe.isolate([(j, sts[j][3]) for j in bt]), [sgood[k:k + BATCH] for k in range(0, len(sgood), BATCH)]):
+        sreal.update(r)
+    for j, r in zip(ssingle, vlib.pmap(lambda j: ebe.compile_items([(j, sts[j][3])]), ssingle)):
+        sreal[j] = r
+    sdis = []
+    for j, (v, out) in sorted(sreal.items()):
+        ck.nontrivial(sts[j][0])
+        p = spred[j][1] if j in spred else None
         if v == "frontend-reject":
-            ck.broken_obligation("kddp reports a frontend error for %s which parser.Parse (cellx) accepted" % ex[j][0], out[-600:])
+            ck.broken_obligation("kddp reports a frontend error for %s which parser.Parse (cellx) accepted" % sts[j][0], out[-600:])
+            continue
+        if v != "ok":
+            n_viol += 1
+            report("%s verdict=%s" % (sts[j][0], v), v, out, sts[j][3], dict(model_prediction=p, group=ebe.groups.get(j)))
+        if p is not None and p != v:
+            sdis.append((sts[j][0], p, v))
+    for j in smis[:20]:
+        ck.broken_obligation("statement table: %s: model tc_stmt = %s, frontend of /repo accepts = %s" % (sts[j][0], spred[j][0], sfr[j][0]), sts[j][3])
+    if sdis and not ck.violations:
+        ck.broken_obligation("statement lowering table: %d verdicts differ between model and kddp, e.g. %s: model %s, kddp %s" % ((len(sdis),) + sdis[0]), json.dumps(sdis[:40]))
+    disagreements += sdis
+    # statement sequences outside the tables: judged directly
+    dcs = direct_cells()
+    dfr, _ = frontend_batch(cx, b, [(j, t) for j, (k, t) in enumerate(dcs)], size=50)
+    for j, (v, out) in zip(range(len(dcs)), vlib.pmap(lambda j: ebe.compile_items([(j, dcs[j][1])]) if dfr.get(j, (False, None))[0] else ("skipped", ""), range(len(dcs)))):
+        if v in ("ok", "skipped"):
             continue
         n_viol += 1
-        report("%s verdict=%s" % (ex[j][0], v), v, out, ex[j][1], dict(group=ebe.groups.get(j)))
+        report("%s verdict=%s" % (dcs[j][0], v), v, out, dcs[j][1])
+    ex, eacc = sts, sacc
     # ---- evidence -----------------------------------------------------------------------------------
     ck.cov.update(dict(
         exhaustive=True, cells=len(cells), admitted_cells=len(admitted), context_units=len(units), compiled_units=len(real), skipped_units_quick=skipped,
         predicted_bad_units=len(single), programs_compiled=be.programs + lbe.programs + ebe.programs, statement_cells=len(ex), statement_cells_admitted=len(eacc),
-        temporary_flavour_units=temp_units, literal_variants=len(lit_variants), literal_units_compiled=len(lgood), failing_units=n_viol, model_disagreements=len(disagreements), checker_table_mismatches=len(tc_mismatch),
+        temporary_flavour_units=temp_units, literal_variants=len(lit_variants), literal_units_compiled=len(lgood), failing_units=n_viol, model_disagreements=len(disagreements), checker_table_mismatches=len(tc_mismatch), statement_table_mismatches=len(smis), statement_units_compiled=len(sreal),
         operators=dict(unary=un, binary=bi, ternary=te, cast=ca), type_classes=KEYS, contexts=CTX_ALL,
-        input_distribution="enumeration, no sampling in the frontend leg: every operator of operators.go x every tuple of %d operand classes (%d cells) through the real frontend; every admitted cell x every applicable value context (%s) through kddp+LLVM+gcc (quick tier: initialiser contexts VI/IN for every admitted cell, 20%% seeded sample of the other contexts of cells predicted fine, up to 3 contexts of every cell predicted bad and 8%% of the list-literal-of-lists units alone; thorough: everything, plus every cell again with call results as operands in 5 contexts); every admitted cell again with bare literals (Zahl 0 1 2 -1, Kommazahl 0,0 2,0, wahr falsch, 'a', \"a\") in each single operand position (thorough: every combination) in the initialiser and argument contexts (thorough: also VI, RT), judged directly; statement operand positions (repeat count, loop condition, list count/literal, indexed assignment, counting and range loops) x classes judged directly" % (len(KEYS), len(cells), ",".join(CTX_ALL)),
+        input_distribution="enumeration, no sampling in the frontend leg: every operator of operators.go x every tuple of %d operand classes (%d cells) through the real frontend; every admitted cell x every applicable value context (%s) through kddp+LLVM+gcc (quick tier: initialiser contexts VI/IN for every admitted cell, 20%% seeded sample of the other contexts of cells predicted fine, up to 3 contexts of every cell predicted bad and 8%% of the list-literal-of-lists units alone; thorough: everything, plus every cell again with call results as operands in 5 contexts); every admitted cell again with bare literals (Zahl 0 1 2 -1, Kommazahl 0,0 2,0, wahr falsch, 'a', \"a\") in each single operand position (thorough: every combination) in the initialiser and argument contexts (thorough: also VI, RT), judged directly; statement cells (repeat count, while/if condition, both list literal forms, indexed assignment, counting loops with and without step, range loops) x every tuple of the classes through the real frontend against tc_stmt (quick tier: FORSTEP tuples with three or four numeric classes all, with two 20%%, with fewer 2%%; thorough: all 130321) and every admitted one through kddp against lower_stmt (quick tier: 25%% of the admitted FORSTEP cells)" % (len(KEYS), len(cells), ",".join(CTX_ALL)),
         rule="distinct = (operator, operand classes, context) triples resp. statement cells; non-trivial = admitted by the frontend, i.e. the code generator ran on it"))
     a = [i for i in sorted(admitted)][:3]
     for i in a:
